@@ -15,7 +15,7 @@ this to code whose operands are sizes, versions, levels and mask numbers.
 """
 import ast
 
-from .ev import ev, Sym, FuncRef, _bind
+from .ev import ev, Sym, FuncRef, _bind, PyRaise, RepoExc, exc_issub
 from .src import Unknown
 
 
@@ -28,9 +28,12 @@ class Return(Signal):
         self.value = value
 
 
-class Raised(Signal):
-    def __init__(self, node, exc):
-        self.node, self.exc = node, exc
+class Raised(PyRaise):
+    """An explicit ``raise`` statement of the analysed code (a PyRaise that knows its statement)."""
+
+    def __init__(self, node, cls, msg=''):
+        PyRaise.__init__(self, cls, node, msg)
+        self.exc = getattr(cls, '__name__', str(cls))
 
 
 class _Break(Signal):
@@ -142,7 +145,14 @@ class Interp:
         elif t is ast.Return:
             raise Return(ev(st.value, env) if st.value is not None else None)
         elif t is ast.Raise:
-            raise Raised(st, ast.unparse(st.exc) if st.exc else '')
+            if st.exc is None:
+                cur = env.get('__current_exception__')
+                if cur is None:
+                    raise Unknown('bare raise outside a handler')
+                raise cur
+            raise Raised(st, self.exc_class(st.exc, env), ast.unparse(st.exc)[:120])
+        elif t is ast.Try:
+            self.try_(st, env)
         elif t is ast.Pass:
             return
         elif t is ast.Continue:
@@ -154,13 +164,53 @@ class Interp:
             if isinstance(c, Sym):
                 raise Unknown('assert on symbolic value')
             if not c:
-                raise Raised(st, 'AssertionError')
+                raise Raised(st, AssertionError, ast.unparse(st.test))
         elif t in (ast.FunctionDef,):
             env[st.name] = FuncVal(st, env, self)
         elif t in (ast.Import, ast.ImportFrom):
             return
         else:
             raise Unknown(f'statement kind {t.__name__} outside the interpreter grammar (line {st.lineno})')
+
+    def exc_class(self, node, env):
+        """Exception class denoted by the operand of ``raise`` / an ``except`` clause."""
+        if isinstance(node, ast.Call):
+            node = node.func
+        if isinstance(node, ast.Tuple):
+            return tuple(self.exc_class(e, env) for e in node.elts)
+        val = ev(node, env)
+        if isinstance(val, type) and issubclass(val, BaseException):
+            return val
+        if isinstance(val, RepoExc):
+            return val
+        if isinstance(val, FuncRef) and isinstance(val.node, ast.ClassDef):
+            bases = tuple(self.exc_class(b, env) for b in val.node.bases)
+            return RepoExc(val.name, bases)
+        raise Unknown(f'cannot resolve exception class {ast.unparse(node)}')
+
+    def try_(self, st, env):
+        try:
+            try:
+                self.block(st.body, env)
+            except PyRaise as e:
+                for h in st.handlers:
+                    if h.type is None or exc_issub(e.cls, self.exc_class(h.type, env)):
+                        saved = env.get('__current_exception__')
+                        env['__current_exception__'] = e
+                        if h.name:
+                            env[h.name] = ExcValue(e)
+                        try:
+                            self.block(h.body, env)
+                        finally:
+                            env['__current_exception__'] = saved
+                        break
+                else:
+                    raise
+            else:
+                self.block(st.orelse, env)
+        finally:
+            if st.finalbody:
+                self.block(st.finalbody, env)
 
     def assign(self, tgt, val, env):
         if isinstance(tgt, ast.Name):
@@ -191,6 +241,17 @@ class Interp:
                 raise Unknown(f'store {ast.unparse(tgt)}: {type(ex).__name__}: {ex}')
         else:
             raise Unknown(f'assignment target {type(tgt).__name__}')
+
+
+class ExcValue:
+    """The value bound by ``except E as ex`` (only str(ex) is understood)."""
+    _model = ()
+
+    def __init__(self, e):
+        self.e = e
+
+    def __str__(self):
+        return f'<message of {self.e.name}>'
 
 
 class _Box(ast.AST):
